@@ -121,6 +121,48 @@ def calls(rng, tg, nrandom):
     return out
 
 
+def current_calls(u):
+    """Every modifier called with the value the receiver ALREADY has (decoded and raw spelling): 'nothing changes'
+    shortcuts must still clear what the modifier clears, validate what it validates and encode what it encodes."""
+    out = []
+
+    def val(a):
+        v = guarded(getattr, u, a)
+        return None if is_exc(v) else v
+
+    for dec, raw, m, key in (("user", "raw_user", "with_user", "user"), ("password", "raw_password", "with_password", "password"), ("fragment", "raw_fragment", "with_fragment", "fragment")):
+        for a in (dec, raw):
+            v = val(a)
+            if isinstance(v, str):
+                out.append((m, (v,), {key: v}))
+    for a in ("host", "raw_host"):
+        v = val(a)
+        if isinstance(v, str) and v:
+            out.append(("with_host", (v,), {"host": v}))
+    v = val("scheme")
+    if v:
+        out.append(("with_scheme", (v,), {"scheme": v}))
+    for a in ("explicit_port", "port"):
+        v = val(a)
+        if isinstance(v, int):
+            out.append(("with_port", (v,), {"port": v}))
+    for a in ("path", "raw_path"):
+        v = val(a)
+        if isinstance(v, str):
+            for kq, kf in ((False, False), (True, False), (False, True), (True, True)):
+                out.append(("with_path", (v,), {"path": v, "kq": kq, "kf": kf}))
+    for a, m in (("name", "with_name"), ("raw_name", "with_name"), ("suffix", "with_suffix"), ("raw_suffix", "with_suffix")):
+        v = val(a)
+        if isinstance(v, str):
+            for kq, kf in ((False, False), (True, False), (False, True), (True, True)):
+                out.append((m, (v,), {"pathop": True, "kq": kq, "kf": kf}))
+    v = val("query_string")
+    if isinstance(v, str):
+        for m, kind in (("with_query", "replace"), ("extend_query", "extend"), ("update_query", "update")):
+            out.append((m, (v,), {"query": kind}))
+    return out
+
+
 def do_call(u, name, args, spec):
     if name == "div.parent":
         return (u / args[0]).parent
@@ -314,7 +356,7 @@ def run(ctx):
                 continue
             bv = vec(u)
             bshape = (hk, uk, "p" + port[:2], bool(path), sch)
-            cl = calls(ctx.rng, tg, ctx.params["random"])
+            cl = calls(ctx.rng, tg, ctx.params["random"]) + current_calls(u)
             # quick tier: a rotating third of the call list per base; thorough: all
             for j, (name, args, spec) in enumerate(cl):
                 if stride > 1 and (j + i) % stride:
